@@ -6,35 +6,33 @@ FWD = TOK + ["src/HttpHeader.cc", "src/HttpHeaderTools.cc", "src/HeaderMangling.
 FWD_FLAGS = {"compat/xstring.cc": ["-Dxstrdup=vf_unused_squid_xstrdup"]}
 _e = lambda n, b, r, **kw: dict(name=n, bounds=b, reach=list(r), **dict(dict(sample_every=61, max_samples=6), **kw))
 _b = "; b = any byte except NUL, CR, LF, DQUOTE; n = any tchar"
-_req = ("client block: User-Agent, Connection, the extension field, Keep-Alive, TE, Trailer, Upgrade, Proxy-Connection, Proxy-Authenticate, Proxy-Authorization, "
-        "'Transfer-Encoding: gzip, chunked', Accept, X-Keep; direct connection to the origin, flags.keepalive and flags.chunked_request symbolic")
-_rep = ("origin block: Server, Connection, the extension field, Keep-Alive, TE, Trailer, Upgrade, Proxy-Connection, Proxy-Authenticate, "
-        "'Transfer-Encoding: chunked', Accept, X-Keep")
+_req = ("; client block: User-Agent, Connection, the extension field X, Keep-Alive, TE, Trailer, Upgrade, Proxy-Connection, Proxy-Authenticate, Proxy-Authorization, "
+        "'Transfer-Encoding: gzip, chunked', [second Connection,] Accept, X-Keep; direct connection to the origin, flags.keepalive and flags.chunked_request symbolic")
+_rep = ("; origin block: Server, Connection, the extension field X, Keep-Alive, TE, Trailer, Upgrade, Proxy-Connection, Proxy-Authenticate, "
+        "'Transfer-Encoding: chunked', [second Connection,] Accept, X-Keep")
 def _fams(th):
-    k = "b b b b b" if th else "b b b b"
-    x = "1..3" if th else "1..2"
-    v = {
-        "any": "Connection value = %s (fully symbolic), extension field name = %s bytes n" % (k, x),
-        "tail": "Connection value = 'close' %s, extension field name = %s bytes n" % (k, x),
-        "head": "Connection value = %s 'keep-alive', extension field name = %s bytes n" % (k, x),
-        "mid": "Connection value = 'TE' %s ',close', extension field name = %s bytes n" % (k, x),
-        "reg": "Connection value = " + ("b 'cce' b b b" if th else "b 'ccep' b b") + " (names the registered end-to-end field Accept or not), extension field name = 1 byte n",
-        "two": "two Connection fields: 'close' and %s, extension field name = %s bytes n" % (k, x),
-    }
-    out = []
-    for f in ("any", "tail", "head", "mid", "reg", "two"):
-        lab = ("to-origin",) if f == "reg" else ("listed-dropped", "unlisted-kept", "to-origin")
-        out.append(_e("c04_req_" + f, v[f] + "; " + _req + _b, lab))
-    for f in ("any", "tail", "head", "mid", "reg", "two"):
-        lab = () if f == "reg" else ("listed-dropped", "unlisted-kept")
-        out.append(_e("c04_rep_" + f, v[f] + "; " + _rep + _b, lab))
-    out.append(_e("c04_req_flags", "Connection value = ' x' b ', close', extension field name = 2 bytes n; the client block above; every Http::StateFlags member read by "
-                  "httpBuildRequestHeader() symbolic (keepalive, only_if_cached, peering, tunneling, toOrigin, chunked_request, front_end_https 0..2; tunneling => "
-                  "peering and toOrigin; no peer => toOrigin); cache_peer login in {none, PASS, PASSTHRU, PROXYPASS, user:pw, *:pw} (none without a peer)" + _b,
-                  ("listed-dropped", "unlisted-kept", "to-origin", "peer-credentials-passed", "peer-no-credentials")))
-    return out
+    k = "b b b b b" if th else "b b b"
+    x2 = "'X-e'" if th else "'Xe'"
+    any_ = "Connection = %s (fully symbolic), X = %s" % (k, "'xE'" if th else "'E'")
+    two = "two Connection fields 'close' and %s, X = %s" % (k, x2)
+    tail = "Connection = 'close' %s, X = %s" % (k, x2)
+    head = "Connection = %s 'keep-alive', X = %s" % (k, x2)
+    mid = "Connection = 'xe' %s 'x-keep' %s, X = 'xE'" % (("b b b", "b b") if th else ("b b", "b"))
+    reg = "Connection = %s (names the registered end-to-end field Accept or not), X = 'Xe'" % ("b b 'cce' b b b" if th else "b 'ccep' b b")
+    name = "Connection = %s, X = %s" % ("'close,xE' b ',k' b" if th else "'close,xE' b", "n n n (not Via)" if th else "n n")
+    L3 = ("listed-dropped", "unlisted-kept", "to-origin")
+    return [
+        _e("c04_req_short", any_ + " | " + two + _req + _b, L3),
+        _e("c04_req_edges", tail + " | " + head + _req + _b, L3),
+        _e("c04_req_named", mid + " | " + reg + " | " + name + _req + _b, L3),
+        _e("c04_req_flags", "Connection = ' xE , close', X = 'Xe'; the client block above; Http::StateFlags symbolic: keepalive, peering, tunneling, toOrigin, chunked_request"
+           + (", only_if_cached, front_end_https 0..2" if th else "") + " (tunneling => peering and toOrigin; no peer => toOrigin); cache_peer login in {none, PASS, PASSTHRU, "
+           "PROXYPASS, user:pw, *:pw} (none without a peer)", ("listed-dropped", "to-origin", "peer-credentials-passed", "peer-no-credentials"), sample_every=5, max_samples=14),
+        _e("c04_rep_lists", " | ".join((any_, two, tail, head, mid, reg, name)) + _rep + _b, ("listed-dropped", "unlisted-kept")),
+    ]
 SPEC = dict(
     harness="C04_hopbyhop.cc", units=FWD, unit_flags=FWD_FLAGS,
+    native_libs=["-lnettle"],   # the real base64 encoder of this build, for the native replay
     scope="kernel",
     scope_note="kernel decided: (request) the real HttpStateData::httpBuildRequestHeader() -- getList(Connection), copyOneHeaderFromClientsideRequestToUpstreamRequest() "
                "for every parsed client field, addVia, X-Forwarded-For, Host, httpFixupAuthentication(), Cache-Control, Squid's own Connection and Transfer-Encoding, "
